@@ -12,6 +12,8 @@ while args and args[0].startswith('-'):
 ids = args or sorted(os.listdir(V + '/seeded'))
 def run(sid):
     meta = json.load(open(f'{V}/seeded/{sid}/meta.json'))
+    if meta.get('retired'):
+        return sid, meta, None, 0, ''  # no longer applies to /repo HEAD (see meta.json)
     prop = meta['property']
     out = subprocess.run([V + '/tools/run_seed_wt.sh', f'{V}/seeded/{sid}/patch.diff', 'quick', prop],
                          capture_output=True, text=True).stdout
@@ -21,6 +23,9 @@ def run(sid):
 res = {}
 with cf.ThreadPoolExecutor(jobs) as ex:
     for sid, meta, hits, incon, out in ex.map(run, ids):
+        if hits is None:
+            print(f"{sid}: RETIRED ({meta['retired'][:60]}...)", flush=True)
+            continue
         own = [h for p, h in hits if p == meta['property']]
         print(f"{sid}: {'CAUGHT' if own else 'MISSED'} {len(own)} violation(s), {incon} inconclusive: {', '.join(own[:3])}", flush=True)
         if update and own:
